@@ -183,6 +183,11 @@ pub open spec fn union_over<A>(xs: Seq<A>, f: spec_fn(A) -> ES) -> ES {
     ISet::new(|e: Entry| exists|i: int| 0 <= i < xs.len() && #[trigger] f(xs[i]).contains(e))
 }
 
+// a loop over xs that stops at the first element satisfying `stop` (an early `break` at the top of the loop body)
+pub open spec fn union_over_prefix<A>(xs: Seq<A>, stop: spec_fn(A) -> bool, f: spec_fn(A) -> ES) -> ES {
+    ISet::new(|e: Entry| exists|i: int| 0 <= i < xs.len() && (forall|j: int| 0 <= j <= i ==> !stop(xs[j])) && #[trigger] f(xs[i]).contains(e))
+}
+
 // ---------------------------------------------------------------- the snapshot a scan is taken of
 pub struct FileMd { pub entries: ES, pub first_key: Seq<u8>, pub last_key: Seq<u8> }
 pub struct Snap { pub mem: ES, pub imm: Option<ES>, pub l0: Seq<FileMd>, pub levels: Seq<Seq<FileMd>> }
